@@ -165,8 +165,10 @@ func TestVerifC14Interleaved(t *testing.T) {
 	c := ev.For("C14")
 	c.Rule("interleaved: 2..4 connections of one process (each real client<->reference server, reference client<->real server or real<->real), every transport write of a real side's handshake held before its bytes are consumed; generated schedule of bursts (connection, 1..6 steps or 'to completion'); step = start a side / let a held write through / release pending bytes (all, 1, 7, 16, 24, 100) to a reader / first application Write of a side whose handshake has returned / for a real side whose application reader is stepped (2 of 3): grant one Read call of 1..64 or 65536 bytes, or resume free reading; in half of the cases connection 0 is steered so that the peer's data arrives coalesced with its key establishment message, the application reads only a few bytes of it, and the connection is left alone until another connection has made progress; every handshake must succeed, exact stream oracle after every step (prefix while the application reader is paused), then more data both ways; non-trivial = another connection ran at least one step while a connection was parked between two of its own steps before completing; fingerprint = configuration + schedule")
 	c.Floor("interleaved-nontrivial/interleaved", 0.70)
-	c.Floor("interleaved-other-ran-while-held@seed-write/interleaved", 0.30)
-	c.Floor("interleaved-other-ran-while-held@header-write/interleaved", 0.20)
+	// (the floor is on "some handshake write", whatever its number: how many
+	// transport writes carry the key establishment message is the implementation's
+	// business; the per-index classes "...#k" are counted without floors)
+	c.Floor("interleaved-other-ran-while-held@some-handshake-write/interleaved", 0.30)
 	c.Floor("interleaved-other-ran-while-waiting-for-peer/interleaved", 0.30)
 	c.Floor("interleaved-unread-bytes-arrived-while-other-progressed/interleaved", 0.25)
 	rapid.Check(t, func(rt *rapid.T) {
@@ -546,11 +548,9 @@ func TestVerifC14Interleaved(t *testing.T) {
 			if m.interleaved {
 				nt = true
 			}
-			if m.overlapHeld[0] {
-				add("interleaved-other-ran-while-held@seed-write")
-			}
-			if m.overlapHeld[1] {
-				add("interleaved-other-ran-while-held@header-write")
+			for k := range m.overlapHeld {
+				add("interleaved-other-ran-while-held@some-handshake-write")
+				add(fmt.Sprintf("interleaved-other-ran-while-held@handshake-write#%d", k))
 			}
 			if m.overlapRead {
 				add("interleaved-other-ran-while-waiting-for-peer")
